@@ -10,6 +10,28 @@ def names(xs):
     return ",".join(hexs(x) for x in xs) if xs else "-"
 
 
+def gen_rehash(rng, tier):
+    """Cluster.rehash (package main) called twice with different node lists: the node must end with the ring of the second list"""
+    pool = ["n1", "n2", "n3", "n4", "n5", "n6", "alpha", "b"]
+    keys = ["usrAAAAAAAAAAA", "grpXyz", "k1", "p2pAAAA", "sys", "grpQ9", "usrBBBB", "x", "grpZZZZZZ", "usr0"]
+    for _ in range(400 if tier == "thorough" else 80):
+        a = sorted(set(rng.choice(pool) for _ in range(1 + rng.below(5))))
+        k = rng.below(4)
+        if k == 0:
+            b = list(a)
+        elif k == 1 and len(a) > 0:
+            # same size, different membership
+            b = list(a)
+            repl = [x for x in pool if x not in a]
+            if repl:
+                b[rng.below(len(b))] = rng.choice(repl)
+            b = sorted(set(b))
+        else:
+            b = sorted(set(rng.choice(pool) for _ in range(1 + rng.below(5))))
+        ks = keys + ["".join(rng.choice("abcdefgh0123456789") for _ in range(1 + rng.below(10))) for _ in range(6)]
+        yield "ring.rehash " + ",".join(hexs(x) for x in a) + " " + ",".join(hexs(x) for x in b) + " " + ",".join(hexs(x) for x in ks)
+
+
 def gen_ring(rng, tier):
     big = tier == "thorough"
     keys0 = ["usrAAAAAAAAAAA", "grpXyz", "k1", "n1", "1n1", "0one", "", "p2pAAAA", "sys"]
@@ -131,7 +153,8 @@ PROP = dict(
     theorems=[T + n for n in ["ring_perm_invariant", "get_perm_invariant", "ring_total", "ring_remove_minimal", "ring_add_minimal", "shape_ok", "sig_gate",
                               "one_vote_per_term", "majority_needed", "election_safety", "term_monotone", "health_step",
                               "partitioned_leader_stops"]],
-    streams=[dict(name="ring", pkg="ringhash", gen=gen_ring, classify=classify, post=post_ring)],
+    streams=[dict(name="ring", pkg="ringhash", gen=gen_ring, classify=classify, post=post_ring),
+             dict(name="rehash", pkg="main", gen=gen_rehash, classify=lambda o, i: i.split(" ")[1] if " " in i else i)],
     seeds=dict(quick=1, thorough=3),
     rule="all permutations of random node-name sets of size 0..4 (5 thorough) under CRC-32 and under a 7-valued colliding hash, "
          "removal pairs, replica counts 0..20, duplicate names, names whose replica strings collide ('1','11','111'); each line "
